@@ -42,3 +42,126 @@ inline std::vector<std::string> split(const std::string& line)
     return t;
 }
 } // namespace pv
+
+// ---------------------------------------------------------------------------------------
+// Supervised case runner.  The parent reads all case lines, forks a worker that handles
+// them in order and reports "index<TAB>result" through a pipe.  If the worker makes no
+// progress for PV_CASE_TIMEOUT seconds (default 4) it is killed and the case is reported
+// as HANG; if it dies (sanitizer abort, signal, uncaught exception) the case is reported
+// as CRASH <how>; a new worker continues with the next case.  So one bad case costs one
+// result line, not the batch.
+// ---------------------------------------------------------------------------------------
+#include <csignal>
+#include <cstdlib>
+#include <cstring>
+#include <functional>
+#include <poll.h>
+#include <sys/wait.h>
+#include <unistd.h>
+
+namespace pv {
+inline int run_cases(const std::function<std::string(const std::string&)>& handle)
+{
+    std::vector<std::string> cases;
+    std::string line;
+    while (std::getline(std::cin, line))
+        cases.push_back(line);
+    std::vector<std::string> results(cases.size());
+    int timeout_ms = 4000;
+    if (const char* t = getenv("PV_CASE_TIMEOUT"))
+        timeout_ms = atoi(t) * 1000;
+    size_t next = 0;
+    size_t failures = 0;
+    while (next < cases.size())
+    {
+        if (failures > 40)
+        {
+            // too many dead workers: stop spending time, the caller ignores SKIPPED cases
+            for (size_t i = next; i < cases.size(); ++i)
+                results[i] = "SKIPPED";
+            break;
+        }
+        int fds[2];
+        if (pipe(fds) != 0)
+            return 3;
+        pid_t pid = fork();
+        if (pid == 0)
+        {
+            close(fds[0]);
+            FILE* out = fdopen(fds[1], "w");
+            for (size_t i = next; i < cases.size(); ++i)
+            {
+                std::string r;
+                try
+                {
+                    r = handle(cases[i]);
+                }
+                catch (const std::exception& e)
+                {
+                    r = std::string("UNCAUGHT ") + e.what();
+                }
+                for (auto& c : r)
+                    if (c == '\n')
+                        c = ' ';
+                fprintf(out, "%zu\t%s\n", i, r.c_str());
+                fflush(out);
+            }
+            fclose(out);
+            _exit(0);
+        }
+        close(fds[1]);
+        std::string buf;
+        bool hung = false;
+        for (;;)
+        {
+            struct pollfd p = { fds[0], POLLIN, 0 };
+            int pr = poll(&p, 1, timeout_ms);
+            if (pr == 0)
+            {
+                hung = true;
+                kill(pid, SIGKILL);
+                break;
+            }
+            char tmp[65536];
+            ssize_t n = read(fds[0], tmp, sizeof tmp);
+            if (n <= 0)
+                break;
+            buf.append(tmp, static_cast<size_t>(n));
+            size_t pos;
+            while ((pos = buf.find('\n')) != std::string::npos)
+            {
+                std::string l = buf.substr(0, pos);
+                buf.erase(0, pos + 1);
+                size_t tab = l.find('\t');
+                size_t idx = std::stoul(l.substr(0, tab));
+                results[idx] = l.substr(tab + 1);
+                next = idx + 1;
+            }
+        }
+        close(fds[0]);
+        int status = 0;
+        waitpid(pid, &status, 0);
+        if (next < cases.size())
+        {
+            if (hung)
+                results[next] = "HANG";
+            else if (WIFSIGNALED(status))
+                results[next] = "CRASH signal=" + std::to_string(WTERMSIG(status));
+            else if (WIFEXITED(status) && WEXITSTATUS(status) != 0)
+            {
+                int ec = WEXITSTATUS(status);
+                results[next] = std::string("CRASH ") + (ec == 99 ? "asan" : ec == 98 ? "ubsan" : ("exit=" + std::to_string(ec)));
+            }
+            else if (!(WIFEXITED(status) && WEXITSTATUS(status) == 0))
+                results[next] = "CRASH unknown";
+            else
+                break; // clean exit with everything reported
+            ++next;
+            ++failures;
+        }
+    }
+    for (auto& r : results)
+        std::cout << r << "\n";
+    return 0;
+}
+} // namespace pv
